@@ -9,8 +9,11 @@ PROP = {
         "C15_supernet4_len0_wraps", "C15_supernet6_at128", "C15_supernet_total4", "C15_supernet_total6",
         "C15_parse_format4", "C15_parse_format6_partial", "C15_parse_format6_v4mapped",
         "C15_parse_format6_refuted", "C15_parse_format_pfx", "C15_string_total",
+        "C15_generated_model_agrees", "C15_contains_gen", "C15_supernet_trie_gen",
     ],
     "allowed_axioms": [],
+    # translator: regenerates coq/Gen/NetGen.v from $VERIF_REPO/net on every run (written only when changed)
+    "gen": [{"name": "gosub2coq", "cmd": ["python3", "tools/gosub2coq/run.py"], "timeout": 600}],
     "harness": "c15",
     "modelrun": {"name": "c15", "extracted": ["c15_model"], "driver": "ocaml/c15/c15_run.ml"},
     "tiers": {"quick": {"cases": 6000}, "thorough": {"cases": 250000}},
@@ -22,6 +25,10 @@ PROP = {
             "position/mask count 0..255; tx: String/parse round trip (all non-trivial); ps: alternative and malformed "
             "spellings (non-trivial when one parser accepts); by/bl/cl: byte-slice conversion, BytesInAddr, checkLastNBits",
     "trusted_base": [
+        "tools/gosub2coq (go/packages, go/types): the translation of the listed functions of net/prefix.go, net/ip.go and "
+        "util/math into coq/Gen/NetGen.v (subset and conventions in the header of tools/gosub2coq/main.go; non-nil pointer "
+        "arguments assumed; loops as fixpoints with fuel 34 / 257); cross-checked on every run: the generated definitions "
+        "are extracted and compared with the Go code like the hand-written model",
         "extraction (ExtrOcamlBasic only) + ocaml/common/conv.ml + ocaml/c15/c15_run.ml",
         "Go harness harness/cmd/c15 (generator, math/big bit-list spec oracle) and /repo/net/verif_hooks_c15.go "
         "(thin wrappers of unexported helpers)",
